@@ -182,6 +182,16 @@ func (l liar) IsZero() bool { return l.N%2 == 0 }
 
 type bigElem [1100]int64
 
+// cloner / *clonerP: element types with a Clone method that does NOT return the receiver; helpers that are
+// specified as storing "the value" must store the value, not its clone.
+type cloner struct{ N int }
+
+func (c cloner) Clone() cloner { return cloner{c.N + 1000} }
+
+type clonerP struct{ N int }
+
+func (c *clonerP) Clone() *clonerP { return &clonerP{c.N} }
+
 type fstruct struct {
 	F float64
 	P *int
@@ -394,6 +404,8 @@ func main() {
 		typedSplice(e, "struct{}", []struct{}{{}, {}}, func(a, b struct{}) bool { return true })
 		typedSplice(e, "[0]int", [][0]int{{}, {}}, func(a, b [0]int) bool { return true })
 		typedSplice(e, "bool", []bool{false, true, true, false, true}, func(a, b bool) bool { return a == b })
+		typedSplice(e, "struct with a Clone method", []cloner{{0}, {1}, {2}, {3}}, func(a, b cloner) bool { return a == b })
+		typedSplice(e, "pointer type with a Clone method", []*clonerP{nil, {1}, {1}, {3}}, func(a, b *clonerP) bool { return a == b })
 		typedSplice(e, "struct with lying Equal/IsZero/String methods", []spell.Liar{{0}, {1}, {2}, {3}}, func(a, b spell.Liar) bool { return a == b })
 		{
 			mkBig := func(tag int) bigElem {
